@@ -109,7 +109,7 @@ Record Inv (c : cfg) : Prop := {
   inv_cons : Permutation (accepted c) (executed c ++ inhand (cons c) ++ ring_items (cring c) ++ discarded c);
   inv_closed : rclosed (cring c) = close_done (closer c);
   (* Close returns only after the consumer has stopped *)
-  inv_done : closer c = KDone -> cons c = CStopped;
+  inv_done : closer c = KDone -> cons c = CStopped \/ cons c = CNotStarted;
   (* a processing error is reported exactly once and stops the consumer *)
   inv_err : onerror c <= 1 /\ (onerror c = 1 -> cons c = CStopped)
 }.
@@ -140,7 +140,10 @@ Ltac fin Hd He :=
   first
   [ assumption | discriminate | reflexivity
   | intros H; discriminate H
-  | let H := fresh in intros H; apply Hd in H; (congruence || discriminate)
+  | let H := fresh in intros H; apply Hd in H; destruct H as [H|H]; (congruence || discriminate)
+  | let H := fresh in intros H; left; reflexivity
+  | let H := fresh in intros H; right; reflexivity
+  | let H := fresh in intros H; apply Hd in H; destruct H as [H|H]; [left|right]; (assumption || congruence)
   | split; [apply He | let H := fresh in intros H; apply He in H; (congruence || discriminate)]
   | intros _; reflexivity ].
 
@@ -157,7 +160,7 @@ Qed.
 
 Lemma inv_step c t c' : Inv c -> step cb_err c t = Some c' -> Inv c'.
 Proof.
-  intros [W Hw Hc Hcl Hd He] Hs. destruct t as [| |i]; cbn [step] in Hs.
+  intros [W Hw Hc Hcl Hd He] Hs. destruct t as [| |i|]; cbn [step] in Hs.
   - (* consumer *)
     unfold step_cons in Hs. destruct (cons c) eqn:Ek.
     + destruct (free c); [|discriminate]. injection Hs as <-. constructor; cbn -[ring_items rclose]; try solve [fin Hd He].
@@ -189,6 +192,7 @@ Proof.
         -- split; [|reflexivity]. assert (onerror c <> 1) by (intros H; apply He2 in H; discriminate). lia.
         -- split; [assumption|]. intros H. apply He2 in H. discriminate.
     + discriminate.
+    + discriminate.
   - (* closer *)
     unfold step_close in Hs. destruct (closer c) eqn:Ek.
     + destruct (free c); [|discriminate]. injection Hs as <-. constructor; cbn -[ring_items rclose]; try solve [fin Hd He].
@@ -204,8 +208,8 @@ Proof.
       * intros H. now apply wake_parked in H.
       * now rewrite inhand_wake.
       * destruct He as [He1 He2]. split; [assumption|]. intros H. apply wake_stopped. auto.
-    + destruct (cons c) eqn:Ec; try discriminate. injection Hs as <-.
-      constructor; cbn -[ring_items rclose]; rewrite ?Ec; try solve [fin Hd He].
+    + destruct (cons c) eqn:Ec; try discriminate;
+        (injection Hs as <-; constructor; cbn -[ring_items rclose]; rewrite ?Ec; try solve [fin Hd He]).
     + discriminate.
   - (* producer i *)
     unfold step_prod in Hs. destruct (nth_error (prods c) i) as [p|] eqn:En; [|discriminate].
@@ -235,8 +239,11 @@ Proof.
     + injection Hs as <-. constructor; cbn -[ring_items rclose]; try solve [fin Hd He].
       * intros H. now apply wake_parked in H.
       * now rewrite inhand_wake.
-      * intros H. apply wake_stopped. auto.
+      * intros H. destruct (Hd H) as [E|E]; rewrite E; [left|right]; reflexivity.
       * destruct He as [He1 He2]. split; [assumption|]. intros H. apply wake_stopped. auto.
+  - (* Start *)
+    unfold step_start in Hs. destruct (cons c) eqn:Ek; try discriminate. destruct (closer c) eqn:Ekk; try discriminate.
+    injection Hs as <-. constructor; cbn -[ring_items rclose]; rewrite ?Ekk; try solve [fin Hd He].
 Qed.
 
 Lemma inv_exec sched : forall c, Inv c -> Inv (exec cb_err c sched).
@@ -263,6 +270,7 @@ Definition MInv (c : cfg) : Prop :=
   | Some (TProd i) =>
       (exists q, nth_error (prods c) i = Some q /\ holding_p q = true) /\ others_free c (Some i) /\
       holding_c (cons c) = false /\ holding_k (closer c) = false
+  | Some TStart => False          (* Start never takes the mutex *)
   end.
 
 Section S2.
@@ -292,30 +300,31 @@ Qed.
 
 Lemma minv_step c t c' : MInv c -> step cb_err c t = Some c' -> MInv c'.
 Proof.
-  intros HM Hs. destruct t as [| |i]; cbn [step] in Hs.
+  intros HM Hs. destruct t as [| |i|]; cbn [step] in Hs.
   - unfold step_cons in Hs. unfold MInv, others_free in *. destruct (cons c) eqn:Ek.
     + unfold free in Hs. destruct (owner c) eqn:Eo; [discriminate|]. injection Hs as <-. cbn. solve [intuition (try discriminate; try congruence)].
     + destruct (rpull (cring c)); try discriminate; injection Hs as <-; cbn;
-        destruct (owner c) as [[| |j]|]; cbn in *; try solve [intuition (try discriminate; try congruence)]; try (destruct HM as (_ & _ & ? & _); discriminate);
+        destruct (owner c) as [[| |j|]|]; cbn in *; try solve [intuition (try discriminate; try congruence)]; try (destruct HM as (_ & _ & ? & _); discriminate);
         try (destruct HM as (_ & ? & _); discriminate).
-    + injection Hs as <-; cbn. destruct (owner c) as [[| |j]|]; cbn in *; try solve [intuition (try discriminate; try congruence)];
+    + injection Hs as <-; cbn. destruct (owner c) as [[| |j|]|]; cbn in *; try solve [intuition (try discriminate; try congruence)];
         try (destruct HM as (_ & _ & ? & _); discriminate); try (destruct HM as (_ & ? & _); discriminate).
-    + injection Hs as <-; cbn. destruct (owner c) as [[| |j]|]; cbn in *; try solve [intuition (try discriminate; try congruence)];
+    + injection Hs as <-; cbn. destruct (owner c) as [[| |j|]|]; cbn in *; try solve [intuition (try discriminate; try congruence)];
         try (destruct HM as (_ & _ & ? & _); discriminate); try (destruct HM as (_ & ? & _); discriminate).
     + discriminate.
     + unfold free in Hs. destruct (owner c) eqn:Eo; [discriminate|]. injection Hs as <-. cbn. solve [intuition (try discriminate; try congruence)].
-    + injection Hs as <-; cbn. destruct (owner c) as [[| |j]|]; cbn in *; try solve [intuition (try discriminate; try congruence)];
+    + injection Hs as <-; cbn. destruct (owner c) as [[| |j|]|]; cbn in *; try solve [intuition (try discriminate; try congruence)];
         try (destruct HM as (_ & _ & ? & _); discriminate); try (destruct HM as (_ & ? & _); discriminate).
-    + injection Hs as <-; cbn. destruct (owner c) as [[| |j]|]; cbn in *;
+    + injection Hs as <-; cbn. destruct (owner c) as [[| |j|]|]; cbn in *;
         destruct (cb_err x); cbn; try tauto.
+    + discriminate.
     + discriminate.
   - unfold step_close in Hs. unfold MInv, others_free in *. destruct (closer c) eqn:Ek.
     + unfold free in Hs. destruct (owner c) eqn:Eo; [discriminate|]. injection Hs as <-. cbn. solve [intuition (try discriminate; try congruence)].
-    + injection Hs as <-; cbn. destruct (owner c) as [[| |j]|]; cbn in * ; solve [intuition (try discriminate; try congruence)].
-    + injection Hs as <-; cbn. destruct (owner c) as [[| |j]|]; cbn in *; try solve [intuition (try discriminate; try congruence)];
+    + injection Hs as <-; cbn. destruct (owner c) as [[| |j|]|]; cbn in * ; solve [intuition (try discriminate; try congruence)].
+    + injection Hs as <-; cbn. destruct (owner c) as [[| |j|]|]; cbn in *; try solve [intuition (try discriminate; try congruence)];
         try (destruct HM as (_ & _ & _ & ?); discriminate); try (destruct HM as (_ & _ & ?); discriminate).
-    + injection Hs as <-; cbn. rewrite holding_wake. destruct (owner c) as [[| |j]|]; cbn in * ; solve [intuition (try discriminate; try congruence)].
-    + destruct (cons c) eqn:Ec; try discriminate. injection Hs as <-; cbn. rewrite ?Ec. destruct (owner c) as [[| |j]|]; cbn in * ; solve [intuition (try discriminate; try congruence)].
+    + injection Hs as <-; cbn. rewrite holding_wake. destruct (owner c) as [[| |j|]|]; cbn in * ; solve [intuition (try discriminate; try congruence)].
+    + destruct (cons c) eqn:Ec; try discriminate; (injection Hs as <-; cbn; rewrite ?Ec; destruct (owner c) as [[| |j|]|]; cbn in * ; solve [intuition (try discriminate; try congruence)]).
     + discriminate.
   - unfold step_prod in Hs. destruct (nth_error (prods c) i) as [p|] eqn:En; [|discriminate].
     unfold MInv in *.
@@ -328,7 +337,7 @@ Proof.
         -- intros j' q' _ H'. eapply Hof; [discriminate|eassumption].
         -- congruence.
     + destruct (rpush (cring c) x); try discriminate; injection Hs as <-; cbn;
-      (destruct (owner c) as [[| |j]|] eqn:Eo; cbn in *;
+      (destruct (owner c) as [[| |j|]|] eqn:Eo; cbn in *;
        [ destruct HM as (Hof & _); specialize (Hof i _ ltac:(discriminate) En); discriminate
        | destruct HM as (Hof & _); specialize (Hof i _ ltac:(discriminate) En); discriminate
        | destruct HM as ((q & Hq & Hh) & Hof & Hc & Hk);
@@ -337,9 +346,10 @@ Proof.
            [ eexists; split; [eapply nth_error_set_nth_same; eassumption|reflexivity]
            | intros j' q' Hj'; apply (others_free_set c j _ (Some j)); [assumption|congruence|assumption] ]
          | specialize (Hof i _ ltac:(congruence) En); discriminate ]
+       | contradiction
        | destruct HM as (Hof & _); specialize (Hof i _ ltac:(discriminate) En); discriminate ]).
     + injection Hs as <-; cbn.
-      destruct (owner c) as [[| |j]|] eqn:Eo; cbn in *;
+      destruct (owner c) as [[| |j|]|] eqn:Eo; cbn in *;
        [ destruct HM as (Hof & _); specialize (Hof i _ ltac:(discriminate) En); discriminate
        | destruct HM as (Hof & _); specialize (Hof i _ ltac:(discriminate) En); discriminate
        | destruct HM as ((q & Hq & Hh) & Hof & Hc & Hk);
@@ -349,9 +359,10 @@ Proof.
            [ intros Hn; rewrite (nth_error_set_nth_same _ _ _ _ En) in Hn; now injection Hn as <-
            | rewrite nth_error_set_nth_other by assumption; apply Hof; congruence ]
          | specialize (Hof i _ ltac:(congruence) En); discriminate ]
+       | contradiction
        | destruct HM as (Hof & _); specialize (Hof i _ ltac:(discriminate) En); discriminate ].
     + injection Hs as <-; cbn.
-      destruct (owner c) as [[| |j]|] eqn:Eo; cbn in *;
+      destruct (owner c) as [[| |j|]|] eqn:Eo; cbn in *;
        [ destruct HM as (Hof & _); specialize (Hof i _ ltac:(discriminate) En); discriminate
        | destruct HM as (Hof & _); specialize (Hof i _ ltac:(discriminate) En); discriminate
        | destruct HM as ((q & Hq & Hh) & Hof & Hc & Hk);
@@ -361,12 +372,13 @@ Proof.
            [ intros Hn; rewrite (nth_error_set_nth_same _ _ _ _ En) in Hn; now injection Hn as <-
            | rewrite nth_error_set_nth_other by assumption; apply Hof; congruence ]
          | specialize (Hof i _ ltac:(congruence) En); discriminate ]
+       | contradiction
        | destruct HM as (Hof & _); specialize (Hof i _ ltac:(discriminate) En); discriminate ].
     + injection Hs as <-; cbn. rewrite holding_wake.
       assert (Hfr : forall k, others_free c k -> forall j q, Some j <> k ->
                 nth_error (set_nth i (PIdle todo) (prods c)) j = Some q -> holding_p q = false).
       { intros k Hof. apply others_free_set; [assumption|reflexivity]. }
-      destruct (owner c) as [[| |j]|] eqn:Eo; cbn in *.
+      destruct (owner c) as [[| |j|]|] eqn:Eo; cbn in *.
       * destruct HM as (Hof & Hc & Hk). splits; try assumption. intros j' q'. apply Hfr. assumption.
       * destruct HM as (Hof & Hc & Hk). splits; try assumption. intros j' q'. apply Hfr. assumption.
       * destruct HM as ((q & Hq & Hh) & Hof & Hc & Hk).
@@ -374,12 +386,21 @@ Proof.
         splits; try assumption.
         -- exists q. split; [|assumption]. now rewrite nth_error_set_nth_other.
         -- intros j' q'. apply Hfr. assumption.
+      * contradiction.
       * destruct HM as (Hof & Hc & Hk). splits; try assumption. intros j' q'. apply Hfr. assumption.
+  - (* Start *)
+    unfold step_start in Hs. destruct (cons c) eqn:Ek; try discriminate. destruct (closer c) eqn:Ekk; try discriminate.
+    injection Hs as <-. unfold MInv, others_free in *; cbn. rewrite Ek in HM. rewrite ?Ekk.
+    destruct (owner c) as [[| |j|]|]; cbn in *; try contradiction.
+    + destruct HM as (_ & H2 & _). discriminate H2.
+    + destruct HM as (H1 & H2 & H3). rewrite Ekk in H3. discriminate H3.
+    + destruct HM as (H0 & H1 & H2 & H3). splits; assumption || reflexivity.
+    + destruct HM as (H1 & H2 & H3). splits; assumption || reflexivity.
 Qed.
 
 (* ---------- deadlock freedom: Close always gets to return ---------- *)
 Definition finished (c : cfg) : Prop :=
-  (forall j q, nth_error (prods c) j = Some q -> q = PIdle []) /\ cons c = CStopped /\ closer c = KDone.
+  (forall j q, nth_error (prods c) j = Some q -> q = PIdle []) /\ (cons c = CStopped \/ cons c = CNotStarted) /\ closer c = KDone.
 
 Definition can_step_p (p : ppc) : bool :=
   match p with PIdle [] => false | _ => true end.
@@ -388,7 +409,7 @@ Theorem progress c : Inv c -> MInv c ->
   (exists t c', step cb_err c t = Some c') \/ finished c.
 Proof.
   intros HI HM. destruct HI as [W Hw Hc Hcl Hd He]. unfold MInv in HM.
-  destruct (owner c) as [[| |i]|] eqn:Eo.
+  destruct (owner c) as [[| |i|]|] eqn:Eo; [| | |contradiction|].
   - (* consumer holds the lock: it can always continue *)
     left. exists TCons. cbn [step]. unfold step_cons. destruct HM as (_ & Hh & _).
     destruct (cons c) eqn:Ek; try discriminate; eauto.
@@ -421,6 +442,7 @@ Proof.
         -- left. exists TCons. cbn [step]. unfold step_cons, free. rewrite Ec, Eo. eauto.
         -- left. exists TCons. cbn [step]. unfold step_cons. rewrite Ec. eauto.
         -- left. exists TClose. cbn [step]. unfold step_close. rewrite Ek, Ec. eauto.
+        -- left. exists TClose. cbn [step]. unfold step_close. rewrite Ek, Ec. eauto.
       * right. unfold finished. splits; auto.
 Qed.
 
@@ -438,7 +460,7 @@ Qed.
 
 Lemma finv_step c t c' : Inv c -> FInv c -> step cb_err c t = Some c' -> FInv c'.
 Proof.
-  intros HI HF Hs. unfold FInv in *. destruct t as [| |i]; cbn [step] in Hs.
+  intros HI HF Hs. unfold FInv in *. destruct t as [| |i|]; cbn [step] in Hs.
   - unfold step_cons in Hs. destruct (cons c) eqn:Ek.
     + destruct (free c); [|discriminate]. injection Hs as <-. intros Hcd. cbn in *.
       destruct (HF Hcd) as (q & HL & Hq). exists q. rewrite ?Ek in Hq. now split.
@@ -460,12 +482,13 @@ Proof.
       split; [assumption|]. cbn [inhand app] in Hq. rewrite Hq, <- app_assoc. cbn [app].
       destruct (cb_err x); reflexivity.
     + discriminate.
+    + discriminate.
   - unfold step_close in Hs. destruct (closer c) eqn:Ek.
     + destruct (free c); [|discriminate]. injection Hs as <-. intros Hcd. cbn in *. exact (HF eq_refl).
     + injection Hs as <-. intros Hcd. cbn in Hcd. discriminate.
     + injection Hs as <-. intros Hcd. cbn in Hcd. discriminate.
     + injection Hs as <-. intros Hcd. cbn in Hcd. discriminate.
-    + destruct (cons c); try discriminate. injection Hs as <-. intros Hcd. cbn in Hcd. discriminate.
+    + destruct (cons c); try discriminate; (injection Hs as <-; intros Hcd; cbn in Hcd; discriminate).
     + discriminate.
   - unfold step_prod in Hs. destruct (nth_error (prods c) i) as [p|] eqn:En; [|discriminate].
     destruct p as [[|x todo]|x todo|[|] todo|todo].
@@ -482,6 +505,8 @@ Proof.
     + injection Hs as <-. intros Hcd. cbn in *. exact (HF Hcd).
     + injection Hs as <-. intros Hcd. cbn in *. destruct (HF Hcd) as (q & HL & Hq). exists q.
       rewrite inhand_wake. now split.
+  - unfold step_start in Hs. destruct (cons c) eqn:Ek; try discriminate. destruct (closer c) eqn:Ekk; try discriminate.
+    injection Hs as <-. intros Hcd. cbn in *. destruct (HF eq_refl) as (q & HL & Hq). exists q. split; assumption.
 Qed.
 
 (* ---------- every schedule ---------- *)
@@ -504,13 +529,15 @@ Qed.
 Lemma closed_frozen c t c' : Inv c -> closer c = KDone -> step cb_err c t = Some c' ->
   executed c' = executed c /\ closer c' = KDone.
 Proof.
-  intros HI Hk Hs. pose proof (inv_done _ HI Hk) as Hc. destruct t as [| |i]; cbn [step] in Hs.
-  - unfold step_cons in Hs. rewrite Hc in Hs. discriminate.
+  intros HI Hk Hs. pose proof (inv_done _ HI Hk) as Hc. destruct t as [| |i|]; cbn [step] in Hs.
+  - unfold step_cons in Hs. destruct Hc as [Hc|Hc]; rewrite Hc in Hs; discriminate.
   - unfold step_close in Hs. rewrite Hk in Hs. discriminate.
   - unfold step_prod in Hs. destruct (nth_error (prods c) i) as [p|]; [|discriminate].
     destruct p as [[|x todo]|x todo|[|] todo|todo]; try discriminate;
       try (destruct (free c); [|discriminate]); try (destruct (rpush (cring c) x); try discriminate);
       injection Hs as <-; cbn; auto.
+  - (* Start is not called once Close has been *)
+    unfold step_start in Hs. rewrite Hk in Hs. destruct (cons c); discriminate.
 Qed.
 
 End S2.
@@ -552,7 +579,7 @@ Qed.
 
 Lemma oinv_step c t c' : OInv c -> step cb_err c t = Some c' -> OInv c'.
 Proof.
-  intros (q & HL & HS) Hs. destruct t as [| |i]; cbn [step] in Hs.
+  intros (q & HL & HS) Hs. destruct t as [| |i|]; cbn [step] in Hs.
   - unfold step_cons in Hs. destruct (cons c) eqn:Ek.
     + destruct (free c); [|discriminate]. injection Hs as <-. exists q. cbn. split; assumption.
     + destruct (rpull (cring c)) as [x r'| | |] eqn:Ep; try discriminate; injection Hs as <-; cbn [cring with_cons with_ring with_owner accepted executed cons inhand app] in *.
@@ -571,13 +598,14 @@ Proof.
       cbn [inhand app] in HS. replace (inhand (if cb_err x then CStopped else CIdle)) with (@nil item) by (destruct (cb_err x); reflexivity).
       cbn [app]. rewrite <- app_assoc. exact HS.
     + discriminate.
+    + discriminate.
   - unfold step_close in Hs. destruct (closer c) eqn:Ek.
     + destruct (free c); [|discriminate]. injection Hs as <-. exists q. cbn. split; assumption.
     + injection Hs as <-. exists []. cbn [cring accepted executed cons]. split; [eapply live_of_close; eassumption|].
       rewrite app_nil_r. rewrite app_assoc in HS. eapply Sub_drop_suffix; eassumption.
     + injection Hs as <-. exists q. cbn. split; assumption.
     + injection Hs as <-. exists q. cbn. rewrite inhand_wake. split; assumption.
-    + destruct (cons c) eqn:Ec; try discriminate. injection Hs as <-. exists q. cbn. rewrite ?Ec. split; assumption.
+    + destruct (cons c) eqn:Ec; try discriminate; (injection Hs as <-; exists q; cbn; rewrite ?Ec; split; assumption).
     + discriminate.
   - unfold step_prod in Hs. destruct (nth_error (prods c) i) as [p|] eqn:En; [|discriminate].
     destruct p as [[|x todo]|x todo|[|] todo|todo].
@@ -592,6 +620,8 @@ Proof.
     + injection Hs as <-. exists q. cbn. split; assumption.
     + injection Hs as <-. exists q. cbn. split; assumption.
     + injection Hs as <-. exists q. cbn. rewrite inhand_wake. split; assumption.
+  - unfold step_start in Hs. destruct (cons c) eqn:Ek; try discriminate. destruct (closer c) eqn:Ekk; try discriminate.
+    injection Hs as <-. exists q. cbn [cring accepted executed cons with_cons inhand app] in *. split; assumption.
 Qed.
 
 Theorem order_for_ever size r work sched :
